@@ -584,6 +584,21 @@ pub fn cases(thorough: bool) -> Vec<Case> {
             }
         }
     }
+    // confirmations that reach the actor the way a replica's do (no broadcast), quick tier too (the thorough menus
+    // contain the step anyway)
+    if !thorough {
+        for kind in [Kind::Partition, Kind::Stream] {
+            let menu = [Step::AppendConfirmed, Step::AppendUnconfirmed, Step::ConfirmOldestReplicaWay];
+            for from in [None, Some(0u64)] {
+                for steps in sequences(&menu, 2) {
+                    if !steps.contains(&Step::ConfirmOldestReplicaWay) {
+                        continue;
+                    }
+                    v.push(Case { kind, pre: 2, tail_unconfirmed: 1, from, window: 1000, steps, pre_unbroadcast: false });
+                }
+            }
+        }
+    }
     // history that was confirmed but never broadcast (replica-way confirmation / restart): the first broadcast after
     // subscribing replays it; a subscription that starts at the latest position (or behind part of it) must drop it,
     // also after it has delivered something for another partition or stream
